@@ -211,7 +211,11 @@ def decode : Dec Context := fun bs =>
           match readUsize r4 with
           | .err e => .err e
           | .abort => .abort
-          | .ok nc r5 => .ok ⟨info, m, o, nc⟩ r5
+          | .ok nc r5 =>
+            -- the limits asserted by `Context::new` (`saturating_mul` cannot saturate below 2^32)
+            if info.length > 2 ^ 32 - 1 ∨ info.length * o.blowup > 2 ^ 32 - 1 then .err .invalid
+            else if nc = 0 ∨ nc > 2 ^ 32 - 1 then .err .invalid
+            else .ok ⟨info, m, o, nc⟩ r5
 
 /-- `to_elements` (element type of `eb` bytes) -/
 def toElements (eb : Nat) (c : Context) : List Nat :=
